@@ -26,7 +26,7 @@ def snap(a):
 def op_state(A):
     """what an operator 'represents': dense matrix, annotations, shape, dtype, kind"""
     D = np.asarray(A.to_dense())
-    return (snap(D), tuple(P.ann_names(A)), tuple(A.shape), str(np.dtype(A.dtype)), type(A).__name__)
+    return (snap(D), tuple(P.ann_names(A)), tuple(A.shape), str(np.dtype(A.dtype)), type(A).__name__, str(A.device))
 
 
 def res_digest(r):
@@ -246,6 +246,13 @@ def _mk_alphabet():
     def _(c):
         A, _ = c.pick()
         return lambda: A.to(None)
+
+    @op("to_device")      # only in the alphabet when the recorded finding identity_to_mutates_self is gone
+    def _(c):
+        A, _ = c.pick(lambda M: isinstance(M, ops.Identity), derived_ok=False)
+        if A is None:
+            return None
+        return lambda: A.to("cpu")
 
     @op("flatten")
     def _(c):
@@ -467,8 +474,8 @@ def run_sequence(names, pool, rnd, check_all_pool=False):
     for e in (pool if check_all_pool else c.used):
         try:
             now = op_state(e["op"])
-            if now[0] != snap(e["base"]) or list(now[1]) != e["ann"] or now[2] != tuple(e["shape"]) or now[3] != e["dtype"]:
-                viol.append(dict(clause="operator changed (dense matrix / annotations / shape / dtype)", tree=e["tree"], ops=list(names)))
+            if now[0] != snap(e["base"]) or list(now[1]) != e["ann"] or now[2] != tuple(e["shape"]) or now[3] != e["dtype"] or now[5] != e.get("device", "None"):
+                viol.append(dict(clause="operator changed (dense matrix / annotations / shape / dtype / device)", tree=e["tree"], ops=list(names)))
         except Exception as ex:
             viol.append(dict(clause=f"operator can no longer be densified: {type(ex).__name__}: {ex}", tree=e["tree"], ops=list(names)))
     # repeating every call of the sequence returns the same result
